@@ -71,10 +71,14 @@ func (cr *keyStore) load() error {
 
 	var entry *keystore.Entry
 
-	if len(cr.keyID) != 0 {
+	switch {
+	case len(cr.keyID) != 0:
 		entry, err = ks.GetKey(cr.keyID)
-	} else {
-		entry, err = ks.Entries()[0], nil
+	case len(ks.Entries()) == 0:
+		// e.g. an empty, or only partially written file, or a file containing certificates only
+		err = errorchain.NewWithMessage(keystore.ErrNoSuchKey, "key store does not contain any keys")
+	default:
+		entry = ks.Entries()[0]
 	}
 
 	if err != nil {
